@@ -3,7 +3,7 @@
    arbitrary; `look` is any state of the identifier cache, so the statements
    hold for fresh and for cached computations alike.                          *)
 From Coq Require Import ZArith NArith List Bool Permutation.
-From XV Require Import core.Value model.Hash model.Edits proofs.Hash_lemmas proofs.Neutral_lemmas proofs.Full_lemmas proofs.MetaMember_lemmas.
+From XV Require Import core.Value model.Hash model.Edits proofs.Hash_lemmas proofs.Neutral_lemmas proofs.Full_lemmas proofs.MetaMember_lemmas proofs.OwnMark_lemmas proofs.DefaultSig_lemmas.
 Import ListNotations.
 
 (* The general principle: the identifier of every node depends on a graph only
@@ -102,3 +102,28 @@ Theorem C02_default_test_one_level_refuted : exists h d v v',
   remove_meta h v = remove_meta h v' /\ pyeq d (remove_meta1 h v) <> pyeq d (remove_meta1 h v').
 Proof. exact default_test_one_level_refuted. Qed.
 Print Assumptions C02_default_test_one_level_refuted.
+
+(* ---- the default test of the repaired implementation for defaults that hold configurations (bb7497a): "both are
+   hashed alike".  It ignores meta-flagged members of the value and of the default at any depth, cannot tell apart two
+   values that are hashed alike, and sees the mark of the producing task.                                           *)
+Theorem C02_default_by_signature_ignores_meta_members : forall H cs h look fuel d v,
+  is_default_sig H cs h look fuel d v = is_default_sig H cs h look fuel d (remove_meta h v).
+Proof. exact default_sig_ignores_meta_members. Qed.
+Print Assumptions C02_default_by_signature_ignores_meta_members.
+
+Theorem C02_default_by_signature_ignores_meta_members_of_default : forall H cs h look fuel d v,
+  is_default_sig H cs h look fuel d v = is_default_sig H cs h look fuel (remove_meta h d) v.
+Proof. exact default_sig_ignores_meta_members_of_default. Qed.
+Print Assumptions C02_default_by_signature_ignores_meta_members_of_default.
+
+Theorem C02_default_by_signature_respects_hash : forall H cs h look fuel d v v',
+  hv H cs h look fuel [] v = hv H cs h look fuel [] v' ->
+  is_default_sig H cs h look fuel d v = is_default_sig H cs h look fuel d v'.
+Proof. exact default_sig_respects_hash. Qed.
+Print Assumptions C02_default_by_signature_respects_hash.
+
+Theorem C02_default_by_signature_sees_task_mark :
+  is_default_sig (fun b => b) om_classes (mark om_heap 0 1 ++ om_heap) (fun _ => None) 6 (VRef 2) (VRef 0) = false
+  /\ is_default_sig (fun b => b) om_classes (mark om_heap 0 1 ++ om_heap) (fun _ => None) 6 (VRef 2) (VRef 2) = true.
+Proof. exact default_sig_sees_task_mark. Qed.
+Print Assumptions C02_default_by_signature_sees_task_mark.
